@@ -66,13 +66,19 @@ def main():
         if os.path.exists(demo_rs):
             os.makedirs(os.path.join(wt, "tests"), exist_ok=True)
             shutil.copy(demo_rs, os.path.join(wt, "tests", "demo.rs"))
-            demo_cmd = "CARGO_BUILD_JOBS=8 cargo test --offline --test demo 2>&1 | tail -15"
+            text = open(demo_rs).read()
+            feats = [f for f, needle in (("verif_hooks", "verif_hooks"), ("tokio", "TokioIoProvider")) if needle in text]
+            demo_cmd = "CARGO_BUILD_JOBS=8 cargo test --offline %s --test demo 2>&1 | tail -15" % (("--features " + ",".join(feats)) if feats else "")
         elif os.path.exists(demo_diff):
             rc, out = sh(["git", "apply", demo_diff], cwd=wt)
             if rc != 0:
                 print("demo.diff does not apply:\n" + out)
                 ok = False
             demo_cmd = "CARGO_BUILD_JOBS=8 cargo test --workspace --offline 2>&1 | grep -E '^test result|FAILED|failed' | head"
+        elif os.path.exists(os.path.join(src, "demo.py")):
+            # a script that drives the built daemon: exit 0 = behaves correctly
+            shutil.copy(os.path.join(src, "demo.py"), os.path.join(wt, "demo.py"))
+            demo_cmd = "CARGO_BUILD_JOBS=8 cargo build --offline 2>&1 | tail -1; if python3 demo.py target/debug/quandaryd > demo.out 2>&1; then echo 'test result: ok (demo.py exit 0)'; else echo 'FAILED (demo.py exit non-zero)'; tail -5 demo.out; fi"
         else:
             demo_cmd = None
             print("no demonstration found")
@@ -92,8 +98,14 @@ def main():
             # remove the demo again so the checks see only the change
             if os.path.exists(demo_rs):
                 os.remove(os.path.join(wt, "tests", "demo.rs"))
-            else:
+            elif os.path.exists(demo_diff):
                 sh(["git", "apply", "-R", demo_diff], cwd=wt)
+            else:
+                for f in ("demo.py", "demo.out"):
+                    try:
+                        os.remove(os.path.join(wt, f))
+                    except OSError:
+                        pass
         report["confirmed"] = ok
         detected = {}
         for cid in checks:
@@ -107,7 +119,7 @@ def main():
         shutil.rmtree(work, ignore_errors=True)
     dst = os.path.join(VERIF, "seeded", name)
     os.makedirs(dst, exist_ok=True)
-    for f in ("patch.diff", "demo.rs", "demo.diff"):
+    for f in ("patch.diff", "demo.rs", "demo.diff", "demo.py"):
         if os.path.exists(os.path.join(src, f)):
             shutil.copy(os.path.join(src, f), os.path.join(dst, f))
     meta = {}
